@@ -43,13 +43,24 @@ static uint8_t A_val[NA ? NA : 1];
 
 /* ---------------- ghost descriptors / temp files ---------------- */
 static int fd_open[16], n_mkstemp, n_unlink, bad_template, n_fd_open;
-static const char *expect_dir = "/spill";
+#ifndef TMPDIR_SLASH
+#define TMPDIR_SLASH 0
+#endif
+static const char *expect_dir = TMPDIR_SLASH ? "/spill/" : "/spill";
 static int verif_mkstemp(char *tmpl)
 {
+	/* the file must be a direct child of the configured directory: "<dir>/<name>" (a doubled
+	 * slash is the same directory); "<dir><name>" without a separating slash is a sibling */
 	size_t dl = 6;
 	for (size_t i = 0; i < dl; i++)
-		if (tmpl[i] != expect_dir[i]) bad_template = 1;
+		if (tmpl[i] != "/spill"[i]) bad_template = 1;
 	if (tmpl[dl] != '/') bad_template = 1;
+	{
+		size_t i = dl;
+		while (tmpl[i] == '/' && i < dl + 3) i++;
+		for (; i < 40 && tmpl[i]; i++)
+			if (tmpl[i] == '/') bad_template = 1;	/* no further directory component */
+	}
 	int fd = 3 + n_mkstemp;
 	n_mkstemp++;
 	fd_open[fd] = 1;
